@@ -16,22 +16,14 @@ Notation ikey := (list (option atom)).
 Notation idx1 := (gmap (list (option atom)) (gset sym)).
 
 (** valueFromColumnKey: optionals are dereferenced ([None] = nil pointer); a
-    map column addressed by key yields the zero value for an absent key.
+    map column addressed by key yields nothing (nil) for an absent key.
     Whole sets/maps as index values are not hashable in Go (outside the
     model, the harness never declares such indexes): modelled as nil. *)
 Definition col_key (T : table) (r : row) (ck : sym * option atom) : option atom :=
   match r !! ck.1, ck.2 with
   | Some (VAtom a), None => Some a
   | Some (VOpt o), None => o
-  | Some (VMap m), Some k =>
-      match m !! k with
-      | Some v => Some v
-      | None =>
-          match find_col T ck.1 ≫= (fun C => ct_val (c_ty C)) with
-          | Some vt => Some (atom_zero (bt_ty vt))
-          | None => None
-          end
-      end
+  | Some (VMap m), Some k => m !! k     (* a map without the key has no value for it *)
   | _, _ => None
   end.
 
@@ -167,23 +159,19 @@ Definition usable (T : table) (s : ispec) (m : row) : bool := forallb (ck_usable
 
 (** rowsByModels for one model: by UUID first (when [u] is given), then the
     first index — schema indexes first, client indexes only when allowed —
-    that has an entry for the model's value; with client indexes allowed
-    (RowsByModels, behind Where(model)) indexes that are not usable for the
-    model are passed over. [mvals] are the model's fields. *)
+    that is usable for the model (the others are passed over); that index
+    decides, whether it has an entry for the model's value or not. [mvals] are the model's fields. *)
 Fixpoint first_index_hit (T : table) (client : bool) (mvals : row) (sm : list (ispec * idx1)) : option (gset sym) :=
   match sm with
   | [] => None
   | (s, m) :: sm' =>
     if negb (i_schema s) && negb client then None
-    else if client && negb (usable T s mvals) then first_index_hit T client mvals sm'
-    else match m !! K T s mvals with
-         | Some us => Some us
-         | None => first_index_hit T client mvals sm'
-         end
+    else if negb (usable T s mvals) then first_index_hit T client mvals sm'
+    else m !! K T s mvals     (* the first usable index decides, with or without an entry *)
   end.
 
 Definition rows_by_model (T : table) (specs : list ispec) (client : bool) (c : rc) (u : option sym) (mvals : row) : gset sym :=
-  match u ≫= (fun u => if decide (is_Some (rc_rows c !! u)) then Some u else None) with
-  | Some u => {[u]}
+  match u with
+  | Some u => if decide (is_Some (rc_rows c !! u)) then {[u]} else ∅   (* a uuid stands for that row and no other *)
   | None => default ∅ (first_index_hit T client mvals (zip specs (rc_idx c)))
   end.
